@@ -436,6 +436,59 @@ constsLoop:
 
 	// Sorts variables.
 	sortedVars := []*ast.Var{}
+
+	// isSortedVar reports whether the variable name has been sorted.
+	isSortedVar := func(name string) bool {
+		for _, v := range sortedVars {
+			for _, left := range v.Lhs {
+				if left.Name == name {
+					return true
+				}
+			}
+		}
+		return false
+	}
+
+	// funcVarDeps returns the names of the package variables that the
+	// function name refers to, directly or through other functions. The
+	// functions are visited by levels: a function is reached in at most
+	// len(funcs) steps.
+	funcByName := map[string]*ast.Func{}
+	for _, f := range funcs {
+		funcByName[f.Ident.Name] = f
+	}
+	isVar := map[string]bool{}
+	for _, v := range vars {
+		for _, left := range v.Lhs {
+			isVar[left.Name] = true
+		}
+	}
+	funcVarDepsCache := map[string][]string{}
+	funcVarDeps := func(name string) []string {
+		if names, ok := funcVarDepsCache[name]; ok {
+			return names
+		}
+		names := []string{}
+		reached := map[string]bool{name: true}
+		level := []string{name}
+		for i := 0; i <= len(funcs) && len(level) > 0; i++ {
+			var next []string
+			for _, fn := range level {
+				for _, d := range deps[funcByName[fn].Ident] {
+					if isVar[d.Name] {
+						names = append(names, d.Name)
+					} else if _, ok := funcByName[d.Name]; ok && !reached[d.Name] {
+						reached[d.Name] = true
+						next = append(next, d.Name)
+					}
+				}
+			}
+			level = next
+		}
+		funcVarDepsCache[name] = names
+		return names
+	}
+
 varsLoop:
 	for len(vars) > 0 {
 		// Searches for next variable with resolved deps.
@@ -464,9 +517,17 @@ varsLoop:
 				}
 				for _, f := range funcs {
 					if dep.Name == f.Ident.Name {
-						// This dependency has been resolved: move
-						// on checking for next one.
+						// A reference to a function is a reference to the
+						// variables that the function refers to, directly
+						// or through other functions: the dependency is
+						// resolved if these variables are resolved.
 						found = true
+						for _, name := range funcVarDeps(f.Ident.Name) {
+							if !isSortedVar(name) {
+								found = false
+								break
+							}
+						}
 						break
 					}
 				}
